@@ -304,7 +304,7 @@ func NewPurityCase(g *Gen, id int) (*Case, []string, string) {
 	var tags []string
 	var notes []string
 	internals.ClearPools()
-	fp0 := Fingerprint(schema)
+	fp0 := Fingerprint(schema) + Fingerprint(rec.Captured)
 	data := mkData()
 	in0 := Fingerprint(data)
 	before := ""
@@ -316,9 +316,9 @@ func NewPurityCase(g *Gen, id int) (*Case, []string, string) {
 	obs1.Dest = snap
 	canon1 := obs1.canon(n) + CoqDval(obs1.Dest, n)
 	c.Obs = obs1
-	if fp := Fingerprint(schema); fp != fp0 {
+	if fp := Fingerprint(schema) + Fingerprint(rec.Captured); fp != fp0 {
 		tags = append(tags, "schema_modified")
-		notes = append(notes, "the schema object graph changed during the execution")
+		notes = append(notes, "the schema object graph (or a value its callbacks captured) changed during the execution:\nbefore: "+clip(fp0, 1500)+"\nafter:  "+clip(fp, 1500))
 	}
 	if in1 := Fingerprint(data); in1 != in0 {
 		tags = append(tags, "input_modified")
@@ -330,7 +330,7 @@ func NewPurityCase(g *Gen, id int) (*Case, []string, string) {
 	}
 	// the caller now owns the result and scribbles all over it
 	scribble(dest1.Elem())
-	if fp := Fingerprint(schema); fp != fp0 {
+	if fp := Fingerprint(schema) + Fingerprint(rec.Captured); fp != fp0 {
 		tags = append(tags, "dest_aliases_schema")
 		notes = append(notes, "mutating the returned destination changed the schema (a default / catch value shares memory with it)")
 	}
@@ -364,3 +364,11 @@ func NewPurityCase(g *Gen, id int) (*Case, []string, string) {
 // orderSensitive: PostTransforms exist and an issue was produced (the execution-wide gate makes
 // such results depend on the field visit order, which differs between two runs).
 func orderSensitive(n *Node, o *Observed) bool { return hasPT(n) && !o.Nil }
+
+// clip shortens a fingerprint to what differs from here on (for notes)
+func clip(s string, n int) string {
+	if len(s) > n {
+		return "..." + s[len(s)-n:]
+	}
+	return s
+}
